@@ -30,9 +30,15 @@ Lane(flat, shape, axis, i) ==      \* the entries reduced into output position i
    [j \in 1..shape[axis + 1] |-> flat[Flat([a \in 1..Len(shape) |-> IF a < axis + 1 THEN idx[a] ELSE IF a = axis + 1 THEN j - 1 ELSE idx[a - 1]], shape) + 1]]
 Valid(l) == SelectSeq(l, LAMBDA x : x # NaNv)
 MaxOf(l) == CHOOSE m \in Range(l) : \A x \in Range(l) : x <= m
+\* the two infinities are the sentinels 90 and -90 (every finite value used is smaller in magnitude, so the order-based reductions need no
+\* special case); IEEE sums: anything + inf = inf, inf + (-inf) = NaN
+PInf == 90
+NInf == -90
+HasP(v) == \E i \in 1..Len(v) : v[i] = PInf
+HasN(v) == \E i \in 1..Len(v) : v[i] = NInf
 Disc(name, l) == LET v == Valid(l) IN
-   CASE name = "nansum" -> SumSeq(v)
-     [] name = "abssum" -> SumSeq([i \in 1..Len(v) |-> Abs(v[i])])
+   CASE name = "nansum" -> (IF HasP(v) /\ HasN(v) THEN NaNv ELSE IF HasP(v) THEN PInf ELSE IF HasN(v) THEN NInf ELSE SumSeq(v))
+     [] name = "abssum" -> (IF HasP(v) \/ HasN(v) THEN PInf ELSE SumSeq([i \in 1..Len(v) |-> Abs(v[i])]))
      [] v = <<>> -> NaNv
      [] name = "nanmax" -> MaxOf(v)
      [] name = "maxabs" -> MaxOf([i \in 1..Len(v) |-> Abs(v[i])])
